@@ -384,7 +384,8 @@ func stageWiring(w *World, r *Report, ro *Roles, rule string) {
 		return
 	}
 	fname := FuncName(gb)
-	res := w.EnumPaths(gb, EnumOpts{})
+	// (helpers that build the task, the stage or the variables of one element are spliced in)
+	res := w.EnumPaths(gb, EnumOpts{Inline: true, MaxPaths: 20000})
 	r.Count("paths", len(res.Paths))
 	// take a path that reaches NewExecutionGraph
 	var p *Path
@@ -463,8 +464,8 @@ func stageWiring(w *World, r *Report, ro *Roles, rule string) {
 	// the element ranges over the tasks parameter; stages are pushed back and passed on
 	// (the task snapshot: the builder's task-list parameter, or the Tasks field of its job parameter)
 	okElem := false
-	for i, prm := range gb.Params {
-		ap := fmt.Sprintf("arg%d", i)
+	for _, prm := range gb.Params {
+		ap := w.AP(prm)
 		t := shapeString(prm.Type())
 		if strings.HasPrefix(t, "[]") && strings.HasPrefix(E, ap+"[") {
 			okElem = true
